@@ -8,6 +8,7 @@ import Stevia.Proofs.HashSetState
 import Stevia.Proofs.ArraySetState
 import Stevia.Generated.Facts
 import Stevia.Proofs.ExecInv
+import Stevia.Proofs.BytesRT
 import Stevia.Model.ArraySetLayout
 
 namespace Stevia.C10
@@ -94,6 +95,18 @@ theorem hset_decode_recovers {γ : Type} [DecidableEq γ] (hash : γ → Nat) (v
 /-- Array set: the count fits the buffer and the values up to the count are strictly ascending. -/
 theorem aset_format {κ : Type} [LinOrd κ] {key : α → κ} {P : Nat} {s : ASet α} (h : s.Inv key P) :
     s.len ≤ s.slots ∧ AscK (s.view.map key) := ⟨h.len_le, h.sorted⟩
+
+/-- Byte level: the parser of the documented byte format (little-endian words, `repr(C)` offsets, zero
+    padding) accepts the bytes of every reachable state and the decoder recovers the state from them;
+    conversely whatever the parser accepts re-encodes to exactly the same bytes. -/
+theorem tree_bytes_are_the_format (c : TreeCfg) (f : TreeFmt) (hm : f.Matches c) (hf : f.Ok) (s : Tree Int Nat)
+    (h : Tree.Reach c s) (hkv : f.kvOk s.root) :
+    (f.ofBytes (f.toBytes (s.image c 0 0))).bind (fun img => img.decode c 0 0) = some s ∧
+    (TreeFmt.u8 f.key f.val).Matches cfgU8 ∧ (TreeFmt.u32 f.key f.val).Matches cfgU32 :=
+  ⟨Tree.bytes_roundtrip c f hm hf s h hkv, TreeFmt.u8_matches _ _, TreeFmt.u32_matches _ _⟩
+
+theorem tree_parser_exact (f : TreeFmt) (bs : Bytes) (img : TreeImage Int Nat) (h : f.ofBytes bs = some img) :
+    f.toBytes img = bs := TreeFmt.toBytes_of_ofBytes f bs img h
 
 /-- The executable checks the driver evaluates on every decoded *real* state (`wf-bst`, `wf-bal`,
     `wf-alloc`; `wf-alloc`, `wf-placed`; `wf-sorted`) are exactly the invariants of the theorems: a real
